@@ -8,6 +8,12 @@ BASE = ("go/types + go/ssa (x/tools v0.29.0) faithful IR; stdlib contracts as do
         "(DESIGN.md section 3); caller-supplied io.Reader/io.Writer obey their contracts")
 
 CHECKS = {
+ "C12": dict(level="other", ref="§4 C12",
+   text="Every exported SetX/X() pair of the 15 packet types and TopicFilter is evaluated on the SSA form as transition function and decision function over abstract receiver states (all 256 values of every flag byte the setter reads, zero and all-ones backgrounds) and abstract arguments (all booleans, representative bytes, boundary integers, lengths 0/1/2 with identity tags): pairing (X() returns the value set; SetQoS: 0..3, else 0), frame (no other zero-argument accessor of the type changes) and derived flags (CONNECT user-name/password flags iff non-empty; SetWill mirrors will flag, retain and QoS bits). Pairing + frame give last-write-wins for every finite setter sequence by induction. Adders and the encoded frame are C01's.",
+   technique="static analysis: evaluation of extracted transition/decision functions over a finite abstract domain (no library code is run; the SSA form is the formula)"),
+ "C18": dict(level="proof", ref="§4 C18",
+   text="Non-interference by taint analysis: forward value-flow over the SSA form of every function reachable from Connect.String, Connect.dump and Dump, from loads of the fields behind Username()/Password() (and struct copies containing them) through conversions, slicing, element loads, phis, local stores, copy into buffers, closures, calls and results; no tainted value reaches a fmt operand, a Write argument or a returned rendering, and no branch condition is tainted (no implicit flow); len/cap/copy-count carry only the length. Proof modulo the fmt model.",
+   technique="static analysis: interprocedural secrecy taint (explicit and implicit flows) on go/ssa"),
  "C15": dict(level="other", ref="§4 C15",
    text="The structural part only: all radix/mask/bound/continuation constants of the encoder and of both decoders are extracted from the SSA form (normalising <<7, *128, %128, &127), compared with each other and with MQTT's 7-bit groups and 4-byte maximum; the two decoders agree on update, guard and termination test; the encoder sets the continuation bit exactly when the quotient is non-zero and leaves exactly when it is zero; both decoders keep the size guard on every cycle and only the no-continuation exit reaches success; the streaming decoder consumes one byte per iteration; the in-memory path advances by the encoder's dry-run width inside the reader's bounds check. The numeric bijection over 2^28 values and exact decoded values are NOT decided.",
    technique="static analysis: constant extraction and loop-shape matching on go/ssa, sibling cross-check"),
